@@ -742,7 +742,7 @@ def _unitary_fast_path_arity(ctx, repo):
     """C12.q - the single-qubit fast path of CircuitOperation._unitary_ copes with operations on no qubits."""
     ctx.decided.append('C12.q CircuitOperation._unitary_ brings the matrices of the body to one dimension before it multiplies them (a global phase inside the body is a 1x1 factor)')
     ctx.rule('C12.q', 'one dimension for all factors: in CircuitOperation._unitary_ the list of per-operation matrices that is reduced with np.dot / @ is first rebuilt by an expression that '
-             'looks at each matrix\\'s `.shape` (so that a zero-qubit operation enters as a scalar), or zero-qubit operations are excluded by a guard', floor=1, style='RG')
+             'looks at each matrix\'s `.shape` (so that a zero-qubit operation enters as a scalar), or zero-qubit operations are excluded by a guard', floor=1, style='RG')
     ci = repo.cls('cirq.circuits.circuit_operation.CircuitOperation')
     fn = ci.methods.get('_unitary_')
     if fn is None:
